@@ -352,6 +352,11 @@ impl Ctx {
         self.part.borrow_mut().notes.push(s.into());
     }
 
+    /// Is this signature listed as a known (unrepaired) finding of this property?
+    pub fn is_known(&self, sig: &str) -> bool {
+        self.known(sig).is_some()
+    }
+
     fn known(&self, sig: &str) -> Option<&Finding> {
         self.findings
             .iter()
